@@ -8,7 +8,9 @@ Tie between lean/TbbVerif/{Model,Props}/C05.lean and /repo's current tree:
           by the model (same initial state, same answers of the runtime-dependent reads) and must produce the same
           events; per-element counters and chunk logs are the implementation-side monitors
   E-REAL  real library, real threads: monitors; exact chunk multisets for simple/static, legal-split-tree test for
-          auto/affinity; strided parallel_for, parallel_for_each (+feeder), parallel_invoke monitors
+          auto/affinity; strided parallel_for, parallel_for_each (+feeder, copy-counting items), parallel_invoke monitors
+  parallel_for_each / parallel_invoke: checks/c05each.py — E-GEN (block sizes, category dispatch, subroot shape) + E-MOCK trace validation of
+          the real header code on harness/c05/r1_each.h against Model/C05Each.lean (theorems for_each_* / invoke_*)
   index form parallel_for(first, last, step, f …): checks/c05idx.py — the count expression / guards / body-wrapper index
           arithmetic regenerated from parallel_for.h for every Index type (Generated/C05Stride.lean, theorems
           strided_count_exact / strided_guards_exact / strided_index_exact) + the real overloads on boundary extents
@@ -16,6 +18,7 @@ Tie between lean/TbbVerif/{Model,Props}/C05.lean and /repo's current tree:
 import json
 import os
 
+import c05each
 import c05idx
 from common import (BuildError, REPO, ROOT, cxx_build, drv, ensure_repo_built, find_tbb_lib, first_diff, gen_write, log, sh)
 
@@ -48,6 +51,7 @@ def gen(ck):
     body += "".join("def %s : Bool := %s\n" % (k, "true" if c[k] == 1 else "false") for k in ("sel2Guarded", "sel3Guarded", "selNdGuarded"))
     gen_write("C05", body)
     c05idx.gen_stride(ck)
+    ck.extra["each_consts"] = c05each.gen(ck)
     ob = lambda name, ok: ck.oblige("gen:" + name, "generated", ok, c)
     ob("one pool capacity for all partitioners and it is the array size", c["poolCapacity"] == c["poolCapacityAffinity"] == c["poolSlots"] and 1 <= c["poolCapacity"] < (1 << c["depthBits"]))
     ob("initial divisors are linear in max_concurrency", min(c["autoDivPerThread"], c["staticDivPerThread"], c["affinityDivPerThread"]) >= 1)
@@ -626,6 +630,9 @@ def other_real_lines(ck):
         lines.append("foreach %d %d %s %d" % (n, rng.choice([0, 1, n // 2, n]), rng.choice(["r", "f", "i"]), rng.randrange(1, 17)))
     for n in range(2, 13):
         lines.append("invoke %d %d" % (n, rng.randrange(1, 17)))
+    for i in range(12 if q else 300):
+        n = rng.choice([1, 2, 3, 4, 5, 7, 8, 9, 17, 100, 1000])
+        lines.append("foreach2 %d %d %d %s %d %d" % (n, rng.choice([0, 1, 2, 3, 3]), rng.randrange(1, 4), "rfi"[i % 3], rng.randrange(1, 17), rng.randrange(1, 1 << 40)))
     return lines
 
 
@@ -724,7 +731,9 @@ def run_real(ck):
     else:
         for l, o in zip(ol, oo):
             f = dict(kv.split("=", 1) for kv in o.split()[1:]) if o != "bad-op" else {"bad": "bad-op"}
-            if f.get("bad") != "-" or (o.startswith("S ") and f["visited"] != f["expected"]):
+            if o.startswith("F2 ") and f.get("late") == "1":
+                ck.extra["for_each_copies_alive_at_return"] = ck.extra.get("for_each_copies_alive_at_return", 0) + 1
+            if f.get("bad") != "-" or (o.startswith("S ") and f["visited"] != f["expected"]) or (o.startswith("F2 ") and (f["dead"] != "0" or f["live"] != "0")):
                 bad = (l, o)
                 break
             ck.count(1, (l.split()[0], o))
@@ -797,7 +806,11 @@ def run(ck):
                "0..100% at spawn / inside bodies / late, optional cancellation; every task replayed by the model. E-REAL: 64 (thorough 1500) real-thread "
                "loops, concurrency 1..16, sizes up to 2^32+1000003. Index form: for each of 6 Index types ~3000 (first,last,step) triples at the edges of the type "
                "(extent and step in {1,2,3,max/4,max/3,max/2,max-2..max, random}, first at min / last at max, step > extent, last-first+step-1 > max), 20 overloads, "
-               "non-positive steps, empty spaces, trip counts up to 2^26. distinct = distinct (operation, flavour, outcome class) / (kind, flavour, #tasks, #chunks) classes")
+               "non-positive steps, empty spaces, trip counts up to 2^26. E-MOCK for_each/invoke: 240 (thorough 6000) parallel_for_each scenarios (input / forward / random access "
+               "iterators over 0..60 items with shuffled ids, feeder trees of depth 0..3 and fan-out 0..3 alternating copy/move add, 1..8 virtual threads, steal probabilities 0..100% at "
+               "spawn / inside bodies, LIFO-biased waits) and 44 (thorough 660) parallel_invoke scenarios (2..12 functions, with and without a user context); every trace validated "
+               "event by event against the model. E-REAL: 12 (thorough 300) parallel_for_each runs with copy-counting items + feeders depth 3, parallel_invoke 2..12. "
+               "distinct = distinct (operation, flavour, outcome class) / (kind, flavour, #tasks, #chunks) classes")
     ck.assumptions += [
         "modelled exactly: blocked_range<size_t> is_divisible/empty/size, midpoint split, float proportional split (binary32 RNE on rationals), the binary64 "
         "dimension choice of blocked_range2d/3d/nd, range_vector ring, adaptive/proportional/linear_affinity/dynamic_grainsize modes, the four partition types' "
@@ -813,12 +826,28 @@ def run(ck):
         "signed overflow modelled as wrap-around); hypotheses: first < last, step > 0 representable in Index and, for the SIGNED types, last - first <= max(Index) "
         "(the code evaluates last - first in Index / int: beyond that the count is wrong on the unchanged tree, see evidence index_form_signed_extent_beyond_max); "
         "the final `k += ms` after the last iteration of a chunk may wrap (value unused) and is not claimed",
-        "parallel_for_each (iterator blocks, feeder) and parallel_invoke are covered by real-library monitors + spec-level theorems only, not by a code-level model",
-        "termination of the model functions is by fuel; theorems are stated for every fuel that suffices; sufficiency (fuel = size+2) is proved for simple_partitioner on "
-        "blocked_range, for the other partitioners it is observed on every replayed task (the driver uses fuel 10^8)",
+        "parallel_for_each / parallel_invoke: Model/C05Each.lean is a small-step task system (pool of pending tasks, activations = remaining operations of a running task, "
+        "reference counters: root wait context, one wait context per block task, forwarding counters = per-thread reference_vertex / subroot ref_count); one step = one "
+        "reference-count update, spawn, logged action, one iteration of the root task's for-loop, or the start of a pending task by some thread; a schedule is an arbitrary "
+        "list of such choices (any number of threads); what a body feeds is an arbitrary function item -> list of items; the random-access path runs the nested "
+        "parallel_for as an arbitrary list of chunks that tiles the index range (what loop_exactly_once_1d provides) spawned flat by the root task (the start_for task "
+        "tree and its wait tree are C01/first part of C05); task bypass (root task returns the block task) is modelled as the same activation continuing",
+        "parallel_for_each / parallel_invoke NOT modelled: cancellation and exceptions (the cancel() methods), the task_group_context, allocation, which thread runs a "
+        "task beyond the choice of reference vertex, the two-step (fetch_add; parent->reserve) of reference_vertex (one atomic step in the model; C01 vertex_forwarding), "
+        "the copy held by a feeder_item_task (its construction/destruction is covered by the harness monitors only); for_each_item_lifetime is _partial: copies and "
+        "destructions balance (proved), the body call lies between them (monitors only)",
+        "observation (not a violation of C05; reproduced on the real library, evidence for_each_copies_alive_at_return): block tasks and feeder_item_tasks release their wait "
+        "reference BEFORE destroying the item copies they hold (finalize: release(); delete_object()), so parallel_for_each can return while copies of the user's items are "
+        "still alive and are destroyed by a worker thread afterwards (task_group::function_task destroys first, 'Destroy user functor before release wait')",
+        "termination of the parallel_for model functions is by fuel; theorems are stated for every fuel that suffices; sufficiency is PROVED for all four partitioners on "
+        "blocked_range and every environment: fuel 2*size+2 per task, 3*size+3 for the task tree (loop_terminates); for 2d/3d/nd ranges it is observed on every replayed "
+        "task (the driver uses fuel 10^8)",
         "the range_vector ring is tied to the code by its own E-PURE correspondence and to the list used by the task model by the refinement theorems rangevec_tiles/rangevec_refines"]
     ck.trusted += ["harness/c05/r1_mock.h (scripted mock of the r1 entry points; cross-checked by E-REAL monitors)", "harness/c05/{consts,pure,mock,real}.cpp",
-                   "lean/Driver/C05.lean (line protocol, legal-split-tree test)", "checks/c05.py (monitors, closure check)", "checks/c05idx.py (TrIdx: C++ index expressions -> Lean with promotions/conversions; shapes of parallel_for_impl and the body wrapper; monitors)", "harness/c05/idx.cpp", "correspondence is sampled, not proved"]
+                   "lean/Driver/C05.lean (line protocol, legal-split-tree test)", "checks/c05.py (monitors, closure check)", "checks/c05idx.py (TrIdx: C++ index expressions -> Lean with promotions/conversions; shapes of parallel_for_impl and the body wrapper; monitors)", "harness/c05/idx.cpp",
+                   "harness/c05/r1_each.h (second scripted mock of r1: task bypass, real waits, per-thread reference vertices), harness/c05/each.cpp (hooks, task descriptions via dynamic_cast, monitors), "
+                   "harness/c05/eachconsts.cpp, checks/c05each.py (chunk extraction for the random-access path, monitors), lean/Driver/C05Each.lean (trace validation: lazy reference-count updates, "
+                   "frame/activation binding)", "correspondence is sampled, not proved"]
     gen(ck)
     lean_ok = ck.lean_stage()
     lean_broken = [o for o in ck.obligations if not o["ok"] and o["name"].startswith("lean:")]
@@ -828,10 +857,12 @@ def run(ck):
     fails += run_pure(ck)
     run_rv(ck)
     fails += [("mock",) + f for f in run_mock(ck)]
+    each_fails = c05each.run_mock(ck, ck.extra["each_consts"])
     run_real(ck)
     idx_exe, idx_bad, idx_cross = c05idx.run_idx(ck, real_libdir(ck))
     if [o for o in ck.broken() if not o.get("explained")]:
         search(ck, fails)
+        c05each.search(ck, ck.extra["each_consts"], each_fails)
         c05idx.search_idx(ck, idx_exe, idx_bad)
 
 
@@ -839,6 +870,10 @@ def replay(ck, obj):
     r = obj["replay"]
     mon = r.get("monitor")
     name = os.path.basename(r["harness"])[:-4]
+    if name == "each":
+        still = c05each.replay_line(None, r["stdin"])
+        print("property holds now" if not still else "STILL FAILS: %s" % still)
+        return 1 if still else 0
     if name == "idx":
         still = c05idx.replay_line(real_libdir(), r["stdin"])
         print("property holds now" if not still else "STILL FAILS: %s" % still)
@@ -872,9 +907,9 @@ def replay(ck, obj):
             still = "unparsable %r" % o[-1:]
     elif mon in ("real", "other"):
         for o in out.split("\n"):
-            if o.startswith(("M ", "S ", "F ", "I ")):
+            if o.startswith(("M ", "S ", "F ", "I ", "F2 ")):
                 f = dict(kv.split("=", 1) for kv in o.split()[1:])
-                if f.get("empty", "0") != "0" or f.get("oob", "0") != "0" or f.get("elems", "ok").startswith("bad") or f.get("bad", "-") != "-":
+                if f.get("empty", "0") != "0" or f.get("oob", "0") != "0" or f.get("elems", "ok").startswith("bad") or f.get("bad", "-") != "-" or f.get("dead", "0") != "0" or f.get("live", "0") != "0":
                     still = o
     print("property holds now" if not still else "STILL FAILS: %s" % still)
     return 1 if still else 0
